@@ -100,6 +100,9 @@ def placement(ck, mod):
                     z3.And(pysym.Zt(ns[nm]) <= T, T < pysym.Zt(ns[nm]) + S), kind="post")])
     for label, goal, pc, meta in ctx.obls:
         ck.add([Obl("r.place." + label, "digital_metadata._get_file_list", 0, hyp + pc, goal, kind="safety")])
+    # the real generator, whole: groups, files and subdirectories of up to three samples of one write call
+    from checks import dmd_common
+    dmd_common.writer_placement(ck, mod, 3)
     # nested-floor lemma: floor(k*d/(n*C)) == floor(floor(k*d/n)/C)
     a, b = z3.Ints("a b")
     ck.lemma("L-nested-floor", hyp + [floor_is(a, k * d, n * C), floor_is(sec, k * d, n), floor_is(b, sec, C)], a == b)
@@ -135,6 +138,7 @@ def run(tier, seed, replay=None):
     placement(ck, mod)
     ck.replayers["w.place"] = replay_dmd
     ck.replayers["r.place"] = replay_dmd
+    ck.replayers["w.gen"] = replay_dmd
     ck.discharge()
     nch = 1200 if tier == "thorough" else 120
     r = replay_py.run_driver("dmd_history.py", {"seed": seed, "channels": nch, "queries": 6, "max_failures": 3}, timeout=3000)
